@@ -4,9 +4,11 @@ cd "$(dirname "$(readlink -f "$0")")" || exit 2
 export FV_REPO="${FV_REPO:-/repo}"
 export PYTHONPATH="$PWD:$FV_REPO" PYTHONHASHSEED=0
 /venv/bin/python -W ignore -m harness.translate 2>&1 | grep -v conda
-cd lean && lake build FormulaicVerif 2>&1 | tail -5
+cd lean || exit 2
+mods="FormulaicVerif"
 for f in FormulaicVerif/Props/C*.lean; do
-  m=$(basename "$f" .lean)
-  lake build "FormulaicVerif.Props.$m" 2>&1 | tail -2
+  mods="$mods FormulaicVerif.Props.$(basename "$f" .lean)"
 done
+# one lake invocation: independent modules are compiled in parallel on all cores
+lake build $mods 2>&1 | tail -5
 exit 0
